@@ -23,8 +23,10 @@ fn start_counter() -> impl Strategy<Value = Option<u32>> {
 
 fn strategy() -> impl Strategy<Value = History> {
     let sites = vec![0usize, 1, 2];
-    let auth = (any::<u16>(), proptest::bool::weighted(0.8), cm::bytes(32), any::<u8>(), any::<u16>()).prop_map(|(k, targeted, challenge, uv, s)| {
-        Op::Auth(AuthOp { site: [0usize, 1, 2, 8][s as usize % 4], prf: (uv % 3 == 0).then(|| challenge.clone()), challenge, allow: if targeted { AllowSel::Ids(vec![IdRef::Known(k, true)]) } else { AllowSel::Absent }, cd: CdMode::Default, uv })
+    // targeted by an allow list of one to three known ids (several may match: the store's first is used), or discovered
+    let auth = (proptest::collection::vec(any::<u16>(), 1..4), proptest::bool::weighted(0.8), cm::bytes(32), any::<u8>(), any::<u16>()).prop_map(|(ks, targeted, challenge, uv, s)| {
+        let ks = if uv % 2 == 0 { ks[..1].to_vec() } else { ks };
+        Op::Auth(AuthOp { site: [0usize, 1, 2, 8][s as usize % 4], prf: (uv % 3 == 0).then(|| challenge.clone()), challenge, allow: if targeted { AllowSel::Ids(ks.into_iter().map(|k| IdRef::Known(k, true)).collect()) } else { AllowSel::Absent }, cd: CdMode::Default, uv })
     });
     let fault = (any::<u16>(), cm::bytes(16), prop_oneof![Just(0x2Eu8), Just(0x28), Just(0x7F), Just(0x01), Just(0x00)]).prop_map(|(k, challenge, code)| {
         Op::AuthUpdateFault(AuthOp { site: 0, challenge, allow: AllowSel::Ids(vec![IdRef::Known(k, true)]), cd: CdMode::Default, uv: 0, prf: None }, code)
@@ -87,7 +89,7 @@ fn check(ctx: &mut Ctx, h: &History) -> Result<(), String> {
 }
 
 pub fn run(ctx: &mut Ctx) {
-    ctx.rule = "histories of 2-40 assertions through Client and at the CTAP2 level (there also with up=false / uv=false and a user-validation step that reports exactly what was asked), plus occasional registrations, interleaved over 1-4 pre-loaded credentials on up to 3 RPs, with start counters from {none, 0, 1, 2^31-1, 2^31, 2^32-3, 2^32-2, 2^32-1, random}, targeted by allow list or discovered, on the reference store (capability full / forced discoverable / non-discoverable only), MemoryStore and the Option store, counters for new credentials on/off. Non-trivial = at least two successful assertions on counted credentials, or at least one with a start value within 2 of the maximum; distinct by history.".into();
+    ctx.rule = "histories of 2-40 assertions through Client and at the CTAP2 level (there also with up=false / uv=false and a user-validation step that reports exactly what was asked), plus occasional registrations, interleaved over 1-4 pre-loaded credentials on up to 3 RPs, with start counters from {none, 0, 1, 2^31-1, 2^31, 2^32-3, 2^32-2, 2^32-1, random}, targeted by an allow list of one to three held credentials or discovered, on the reference store (capability full / forced discoverable / non-discoverable only), MemoryStore and the Option store, counters for new credentials on/off. Non-trivial = at least two successful assertions on counted credentials, or at least one with a start value within 2 of the maximum; distinct by history.".into();
     ctx.assumptions = vec![
         "per-credential model: below the maximum each success reports previous+1 and that value is what the store then holds; at the maximum the reported and stored value is not smaller and there is no panic".into(),
         "credentials without counter: report 0, record unchanged, no update call (reference store log)".into(),
